@@ -1,6 +1,7 @@
 import ParryModel.Proto
 import ParryModel.C13.Model
 import ParryModel.C14.Model
+import ParryModel.C20.Model
 /-!
 # C20 protocol handlers: totality oracle for C20's own stream of degenerate-but-valid inputs (`harness/src/c20.rs`)
 
@@ -162,6 +163,28 @@ def supInvalid (d : Nat) (args : List String) : Bool :=
   | some v => let w := qs v; rdot w w < 1 / (2 : Rat) ^ 1000
   | none => false
 
+/-- `trim<d>`: `Triangle::perimeter` and `Triangle::circumcircle` equal the C20 models at `Float` bit for bit -/
+def trimModelExpect (d : Nat) (fn : String) (args out : List String) : Option String :=
+  let p : P (List Float × List Float × List Float) := do
+    let _ ← tok; let a ← pvecN d; let b ← pvecN d; let c ← pvecN d; pend; pure (a, b, c)
+  let field (lab : String) (n : Nat) : List String := ((out.dropWhile (· != lab)).drop 1).take n
+  match run p args with
+  | some ([ax, ay, az], [bx, b_y, bz], [cx, cy, cz]) =>
+    let A : V3 Float := ⟨ax, ay, az⟩; let B : V3 Float := ⟨bx, b_y, bz⟩; let C : V3 Float := ⟨cx, cy, cz⟩
+    let cc := triCircumcircle3 A B C
+    if field "per" 1 != [ff (triPerimeter3 A B C)] then some s!"fail non-finite-or-model-differs Triangle::perimeter {tag fn args}"
+    else if field "cc" 4 != [ff cc.1.x, ff cc.1.y, ff cc.1.z, ff cc.2] then
+      some s!"fail non-finite-or-model-differs Triangle::circumcircle {tag fn args}"
+    else none
+  | some ([ax, ay], [bx, b_y], [cx, cy]) =>
+    let A : V2 Float := ⟨ax, ay⟩; let B : V2 Float := ⟨bx, b_y⟩; let C : V2 Float := ⟨cx, cy⟩
+    let cc := triCircumcircle2 A B C
+    if field "per" 1 != [ff (triPerimeter2 A B C)] then some s!"fail non-finite-or-model-differs Triangle::perimeter {tag fn args}"
+    else if field "cc" 3 != [ff cc.1.x, ff cc.1.y, ff cc.2] then
+      some s!"fail non-finite-or-model-differs Triangle::circumcircle {tag fn args}"
+    else none
+  | _ => none
+
 def fns : List String :=
   ["dist", "cp", "ct", "it", "cm", "cast", "nl", "ray", "proj", "mass", "bv", "trim", "segm", "clip", "clipn", "clipal", "cliphp", "sup"]
 
@@ -175,6 +198,10 @@ def handler (fn : String) : Option Handler :=
     model := fun _ => some "-"
     oracle := fun args out =>
       if out.contains "noshape" then "skip shape-constructor-refused" else
+      -- bit-exact model comparisons first (they also cover the outputs next to a NaN that the generic clause reports)
+      match (if base == "trim" then trimModelExpect d fn args out else none) with
+      | some v => v
+      | none =>
       match generic fn args out with
       | some v => if base == "sup" && supInvalid d args then "skip zero-or-underflowing-support-direction" else v
       | none =>
